@@ -16,6 +16,11 @@ RowKeys(r) ==
              \cup (IF r.eq[j] /\ r.variants[r.i + 1] # r.variants[j] THEN {"C18/different_variants_equal"} ELSE {})
              \cup (IF r.in_set[j] = r.eq[j] THEN {} ELSE {"C18/hashset_membership_disagrees:" \o VariantOfName(n)})
              \cup (IF r.vt_eq[j] = r.eq[j] THEN {} ELSE {"C18/value_tuple_equality_disagrees:" \o VariantOfName(n)})
+             \* value tuples (same content as One/Two/Three and as Many): whatever == says, hashing and set membership agree with it;
+             \* tuples of the same representation are equal exactly when the values are
+             \cup (IF \A f \in DOMAIN r.vtx_eq[j] : r.vtx_eq[j][f] => r.vtx_hash[j][f] THEN {} ELSE {"C18/equal_value_tuples_hash_differently:" \o VariantOfName(n)})
+             \cup (IF \A f \in DOMAIN r.vtx_eq[j] : r.vtx_set[j][f] = r.vtx_eq[j][f] THEN {} ELSE {"C18/value_tuple_hashset_membership_disagrees:" \o VariantOfName(n)})
+             \cup (IF r.vtx_eq[j][1] = r.eq[j] /\ r.vtx_eq[j][5] = r.eq[j] THEN {} ELSE {"C18/value_tuple_equality_disagrees:" \o VariantOfName(n)})
              : j \in DOMAIN names }
      \cup (IF r.eq[r.i + 1] /\ r.clone_eq THEN {} ELSE {"C18/not_reflexive:" \o VariantOfName(n)})
 MatrixKeys(r) ==
